@@ -1799,7 +1799,7 @@ class sptensor:
         if self.subs.size == 0:
             return sparse.coo_matrix(self.shape)
         return sparse.coo_matrix(
-            (self.vals.transpose()[0], self.subs.transpose()), self.shape
+            (self.vals.transpose()[0].copy(), self.subs.transpose().copy()), self.shape
         )
 
     def squeeze(self) -> Union[sptensor, float]:
